@@ -67,6 +67,11 @@ pub fn yield_here(label: &'static str) {
 
 struct AbortExecution;
 
+/// How long one step may take before the execution is declared stuck. Generous: the explorer
+/// shares the machine with 15 sibling processes (and whatever else runs), and a step that merely
+/// waited for a CPU must never be reported as a deadlock.
+pub const WATCHDOG: Duration = Duration::from_secs(180);
+
 impl Sched {
     fn new(n: usize) -> Arc<Sched> {
         Arc::new(Sched {
@@ -83,6 +88,9 @@ impl Sched {
 
     fn park(&self, tid: usize, label: &'static str) {
         let mut g = self.inner.lock().unwrap();
+        if g.abort && std::thread::panicking() {
+            return;
+        }
         g.status[tid] = Status::Parked;
         g.at[tid] = label;
         if label == "blocked" {
@@ -93,6 +101,12 @@ impl Sched {
         while g.running != Some(tid) {
             if g.abort {
                 drop(g);
+                // A thread that is already unwinding (its remaining handles are being dropped,
+                // which reaches the hooks again) must not panic a second time - that aborts the
+                // process. The execution is being discarded: let it run free.
+                if std::thread::panicking() {
+                    return;
+                }
                 std::panic::resume_unwind(Box::new(AbortExecution));
             }
             g = self.cv.wait(g).unwrap();
@@ -323,7 +337,7 @@ pub fn explore<R: Send + 'static>(
             break;
         }
         let (bodies, mut at_cut) = make();
-        let ex = run_once(bodies, &prefix, &mut *at_cut, Duration::from_secs(10));
+        let ex = run_once(bodies, &prefix, &mut *at_cut, WATCHDOG);
         stats.executions += 1;
         if stats.by_preemptions.len() <= ex.preemptions {
             stats.by_preemptions.resize(ex.preemptions + 1, 0);
